@@ -37,7 +37,10 @@ impl<T: ContextInformation> Plan for Base256Plan<T> {
     type Context = T;
 
     fn mode_switch_cost(&self) -> Option<Frac> {
-        if self.written >= 250 {
+        if self.written > 1555 {
+            // only the "until the end of the symbol" length can express this
+            None
+        } else if self.written >= 250 {
             Some(self.cost + 1)
         } else {
             Some(self.cost)
@@ -71,7 +74,8 @@ impl<T: ContextInformation> Plan for Base256Plan<T> {
             self.written += 1;
             self.cost += 1;
             self.ctx.write(1);
-            if self.written == 1556 {
+            // 1556 bytes fit if they run until the end of the largest symbol
+            if self.written > 1556 || (self.written == 1556 && self.ctx.has_more_characters()) {
                 return None;
             }
         }
